@@ -30,10 +30,10 @@ class Oracle:
         self.writes = []      # dict(i, kind, key, argv, tok, status, via)
         self.n = 0
 
-    def next_write(self):
+    def next_write(self, kind=None):
         i = self.n
         self.n += 1
-        kind = self.kinds[i % len(self.kinds)]
+        kind = kind or self.kinds[i % len(self.kinds)]
         tok = "t%d" % i
         pad = ("x" * self.big) if self.big else ""
         if kind == "string":
@@ -54,7 +54,7 @@ class Oracle:
         else:
             key = "x%d" % (i % 2)
             argv = ["XADD", key, "%d-1" % (i + 1), "f", tok + pad]
-        w = {"i": i, "kind": kind, "key": key, "argv": argv, "tok": tok + pad, "status": "unsent", "via": None}
+        w = {"i": i, "kind": kind, "key": key, "argv": argv, "tok": tok if kind == "zset" else tok + pad, "status": "unsent", "via": None}
         self.writes.append(w)
         return w
 
@@ -136,7 +136,7 @@ def judge_key(kind, ws, obs):
     elif kind == "hash":
         d = dict(obs or [])
         for w in acked:
-            if d.get("f" + w["tok"][:len(w["argv"][2]) - 1]) is None and d.get(w["argv"][2]) is None:
+            if w["argv"][2] not in d:
                 bad.append((w, "field %s missing" % _short(w["argv"][2])))
             elif d.get(w["argv"][2]) != w["tok"]:
                 bad.append((w, "field %s holds %s" % (_short(w["argv"][2]), _short(d.get(w["argv"][2])))))
@@ -321,10 +321,6 @@ class Runner:
         self.t0 = time.time()
         self.conn = None
         self.conn_node = None
-        self.rlog = {}            # (node id, incarnation) -> tags of the replies the driver received, in order
-
-    def got(self, nd, tag=None):
-        self.rlog.setdefault((nd.id, nd.starts), []).append(tag)
 
     # -- plumbing
     def note(self, k, v):
@@ -354,7 +350,6 @@ class Runner:
                     r = c.cmd("PING")
                 finally:
                     c.close()
-                self.got(nd)
                 if r[0] in ("+", "$"):
                     pending.pop(0)
                     continue
@@ -377,19 +372,20 @@ class Runner:
         self.conn = None
         self.conn_node = None
 
-    def do_write(self, orc, nd, pipeline_ping=False):
+    def do_write(self, orc, nd, pipeline_ping=False, kind=None):
         """Issue the next write through node nd. acked = a non-error reply arrived."""
-        w = orc.next_write()
+        w = orc.next_write(kind)
         w["via"] = nd.id
         try:
             c = self.client_for(nd)
+            w["ts"] = time.time_ns()
             if pipeline_ping:
                 c.send_raw(server.encode(w["argv"]) + server.encode(["PING"]))
             else:
                 c.send_raw(server.encode(w["argv"]))
             w["status"] = "unacked"
             r = c.read_reply(CMD_TIMEOUT)
-            self.got(nd, w["i"])
+            w["tr"] = time.time_ns()
             if r[0] == "-":
                 w["status"] = "error"
                 w["err"] = r[1].decode("latin1", "replace")[:80]
@@ -399,7 +395,6 @@ class Runner:
             if pipeline_ping:
                 try:
                     c.read_reply(CMD_TIMEOUT)
-                    self.got(nd)
                 except Exception:
                     self.drop_conn()
         except Exception as ex:
@@ -492,25 +487,30 @@ class Runner:
         for t in timers:
             t.start()
         acked_before_crash = 0
+        acked_after = 0
         pipelined = sc.get("pipelined", False)
         while orc.n < nmax and time.time() < tmax:
             nd = self.live_entry(entry)
             if nd is None:
                 break
+            all_down = bool(victims) and not any(x.alive() for x in vnodes)
             w = self.do_write(orc, nd, pipeline_ping=pipelined)
-            if w["status"] == "acked" and any(x.alive() for x in vnodes):
-                acked_before_crash += 1
-            if w["status"] != "acked":
+            if w["status"] == "acked":
+                if all_down:
+                    acked_after += 1
+                else:
+                    acked_before_crash += 1
+            else:
                 time.sleep(0.05)
-            if victims and not any(x.alive() for x in vnodes) and orc.n >= sc.get("min_after", 3) + acked_before_crash:
-                # a few more writes after the last victim went down, then stop
-                if sum(1 for x in orc.writes if x["status"] == "acked") - acked_before_crash >= sc.get("min_after", 3) or \
-                        not self.quorum_alive():
-                    break
+            if all_down and (acked_after >= sc.get("min_after", 3) or not self.quorum_alive()):
+                break      # a few more acknowledged writes after the last victim went down, then recover
         for t in timers:
             t.cancel()
         self.note("acked_before_last_crash", acked_before_crash)
         self.note("victims_down_under_load", [nd.id for nd in vnodes if not nd.alive()])
+        missed = [nd for nd in vnodes if nd.alive()]
+        if missed:       # the gate was not reached within the workload: plain kill -9 now (still a crash + restart)
+            self.note("gate_missed", [nd.id for nd in missed])
         # a node that went down without being a victim died on its own
         for nd in cl.nodes:
             if not nd.alive() and nd.id not in self.killed and nd.id not in self.gated:
@@ -530,6 +530,8 @@ class Runner:
     def node_died(self, nd, cause, phase):
         """A node process ended by itself (not at a crash gate, not killed by the driver)."""
         sc = self.sc
+        if "address already in use" in cause["line"] or "bind:" in cause["line"]:
+            return self.inconclusive("port collision with another process on this machine: " + cause["line"][-80:])
         if cause["at_snapshot"]:
             branch = "snapshot.list_value" if cause["list_cycle"] else "snapshot.other"
         else:
@@ -553,7 +555,7 @@ class Runner:
             self.kill(nd)
         time.sleep(0.2)
         self.drop_conn()
-        w = self.do_write(orc, z)
+        w = self.do_write(orc, z, kind=self.rng.choice(["string", "string", "hash"]))
         self.note("ack_without_quorum", w["status"] == "acked")
         w["noquorum"] = True
         self.kill(z)
@@ -592,6 +594,8 @@ class Runner:
             c = death_cause(cl, own[0])
             if c["at_snapshot"]:
                 return self.node_died(own[0], c, "restart")
+            if "address already in use" in c["line"] or "bind:" in c["line"]:
+                return self.inconclusive("port collision with another process on this machine: " + c["line"][-80:])
             self.violation(self.sc["cls"], "unavailable", norm_line(c["line"]),
                            "node %d does not come back (%s): exit code %s: %s" % (own[0].id, when, c["rc"], c["line"]), {"cause": c})
             return self.res
@@ -605,6 +609,13 @@ class Runner:
             for nd in cl.nodes:
                 if nd.alive():
                     self.kill(nd)
+        elif sc.get("then", "victims") == "victims":
+            for v in sc.get("victims", []):
+                if cl.nodes[v["node"]].alive() and sc.get("mode", "gate") == "gate":
+                    self.kill(cl.nodes[v["node"]])
+        for i in sc.get("then_kill", []):
+            if i < len(cl.nodes) and cl.nodes[i].alive():
+                self.kill(cl.nodes[i])
         if sc.get("tear"):
             for i in sc["tear"]:
                 nd = cl.nodes[i]
@@ -647,7 +658,7 @@ class Runner:
                     obs = None
                     for attempt in range(3):
                         try:
-                            obs = read_key(c, ws[0]["kind"], key, lambda nd=nd: self.got(nd))
+                            obs = read_key(c, ws[0]["kind"], key)
                             break
                         except Exception:
                             c.close()
@@ -672,31 +683,35 @@ class Runner:
         return self.res
 
     def ids_of_acked(self):
-        """Proposal id of every write the client got a reply for.  Every command of the driver goes through Raft and is
-        answered by the `reply` hook event of the node it was sent to; the driver talks to a node over one connection
-        at a time, so the k-th reply it received from incarnation j of a node is the k-th `reply` event of that
-        incarnation (a last reply event whose bytes never left the dying process has no counterpart and is ignored).
-        Returns None when the bookkeeping does not line up (then the coarse classification is used)."""
+        """Proposal id of every acknowledged write: the hook events `propose id` and `reply id` of the node that received
+        the command both carry the wall clock (same host), and both lie between the driver's send and its receipt of
+        the reply.  The driver issues commands one at a time, so at most one proposal fits a window (the pipelined
+        PING is proposed after the write: the earliest proposal wins)."""
         ids = {}
+        per_node = {}
         for nd in self.cl.nodes:
-            incs = incarnations(self.cl.events(nd))
-            if len(incs) != nd.starts:
-                return None
-            for j, inc in enumerate(incs, 1):
-                replies = [e.get("id") for e in inc if e.get("ev") == "reply"]
-                tags = self.rlog.get((nd.id, j), [])
-                if len(tags) > len(replies):
-                    return None
-                for k, tag in enumerate(tags):
-                    if tag is not None:
-                        ids[tag] = replies[k]
+            tab = {}
+            for e in self.cl.events(nd):
+                if e.get("ev") in ("propose", "reply") and e.get("id"):
+                    tab.setdefault(e["id"], {})[e["ev"]] = int(e.get("t_ns", 0))
+            per_node[nd.id] = tab
+        for w in self.orc.writes:
+            if w["status"] != "acked" or "ts" not in w:
+                continue
+            best = None
+            for pid, t in per_node.get(w["via"], {}).items():
+                if "propose" in t and "reply" in t and w["ts"] <= t["propose"] and t["reply"] <= w["tr"]:
+                    if best is None or t["propose"] < best[0]:
+                        best = (t["propose"], pid)
+            if best:
+                ids[w["i"]] = best[1]
         return ids
 
     def classify_losses(self, per_node_bad):
         sc = self.sc
         cl = self.cl
         ids = self.ids_of_acked()
-        self.note("ids_matched", ids is not None)
+        self.note("ids_matched", len(ids))
         for nid, bads in sorted(per_node_bad.items()):
             nd = cl.nodes[nid - 1]
             incs = incarnations(cl.events(nd))
